@@ -1176,7 +1176,9 @@ pub fn work_list(cfg: &RunCfg) -> Option<WorkList> {
             for w in ["ab|c", "a(b|c)d", "(a|ab)(c|bcd)", "a*b", "(a+)(b+)", "[ab]+c?", "a{2}b", "(?:a|b)*c", "^a$", "a.b"].iter() {
                 inject_items(w, "plain", None, &mut fixed);
             }
-            let ex = corpus::exhaustive(&ATOMS_SMALL, &OPS_QUICK, if thorough { 4 } else { 3 });
+            // (every site of every pattern: the thorough tier deepens the text bound and
+            // takes more of the matrix, not the size-4 exhaustive list -- 130 000 pairs)
+            let ex = corpus::exhaustive(&ATOMS_SMALL, &OPS_QUICK, 3);
             for p in ex {
                 inject_items(&p, "exhaustive", None, &mut fixed);
             }
@@ -1195,7 +1197,7 @@ pub fn work_list(cfg: &RunCfg) -> Option<WorkList> {
             }
             for (k, w) in corpus::compile_matrix(thorough).iter().enumerate() {
                 // every injection site of every matrix pattern is a lot: quick takes a tenth
-                if thorough || k % 10 == 0 {
+                if (thorough && k % 5 == 0) || k % 10 == 0 {
                     inject_items(w, "compile-matrix", None, &mut fixed);
                 }
             }
